@@ -147,10 +147,10 @@ def _gen_many_resets(rng, tier):
 
 def gen(rng, tier):
     yield from _gen_upload_while_stalled(rng, tier)
-    yield from _gen_many_resets(rng, tier)
     yield from _gen_batched(rng, tier)
     yield from _gen_prio_silent(rng, tier)
     yield from _gen_main(rng, tier)
+    yield from _gen_many_resets(rng, tier)  # (a thousand streams per case: last, so that a slow tree never starves the other families)
 
 
 def _gen_main(rng, tier):
